@@ -14,6 +14,10 @@ validly signing for-block validators with the libraries; ground truth of the com
 STREAMS = [
     ("tmcosmos", "cosmos header sync"),
     ("tmokex", "okex header sync"),
+    ("tmheimdall", "heimdall header sync"),
+    ("tmdepcosmos", "cosmos MakeDepositProposal"),
+    ("tmdepokex", "okex MakeDepositProposal"),
+    ("tmspanheimdall", "heimdall VerifySpan"),
 ]
 
 
